@@ -74,7 +74,7 @@ func runDegenerate(c *lib.Case, r *reporter) {
 		c.Inconclusive("cannot find own executable: " + err.Error())
 		return
 	}
-	ctx, cancel := context.WithTimeout(context.Background(), 120*time.Second)
+	ctx, cancel := context.WithTimeout(context.Background(), 300*time.Second)
 	defer cancel()
 	cmd := exec.CommandContext(ctx, self, "-tier", c.Tier, "-w", "degenerate", "-case", strconv.Itoa(c.Index))
 	cmd.Env = append(os.Environ(), degEnv+"=1", "GOTRACEBACK=single")
@@ -100,7 +100,8 @@ func runDegenerate(c *lib.Case, r *reporter) {
 		r.violation("degenerate:stack-overflow-in-"+stage+":"+dc.class, "unbounded recursion (fatal stack overflow, not recoverable) on ids with identical/adjacent xxhash64 values",
 			map[string]any{"input": input, "child_output": tailOut})
 	case ctx.Err() != nil:
-		r.violation("degenerate:hang-in-"+stage+":"+dc.class, "the operation did not return within 120 s on a handful of ids", map[string]any{"input": input})
+		// wall-clock only: not a verdict
+		c.Inconclusive(fmt.Sprintf("degenerate child did not finish within 300 s (stage %s): %v", stage, input))
 	case strings.Contains(s, "DEG-RESULT "):
 		i := strings.Index(s, "DEG-RESULT ")
 		res := strings.SplitN(s[i+len("DEG-RESULT "):], "\n", 2)[0]
@@ -114,7 +115,7 @@ func runDegenerate(c *lib.Case, r *reporter) {
 
 // degChild runs in the child process; it prints DEG- marker lines.
 func degChild(dc degCase) {
-	debug.SetMaxStack(48 << 20)
+	debug.SetMaxStack(8 << 20) // a runaway recursion ends in seconds; correct code recurses at most one frame per subdivision level
 	m := map[string]string{}
 	for i := 0; i < dc.n; i++ {
 		id, ok := ldiffkit.IdWithHash(dc.base+uint64(i)*dc.gap, uint64(i+1))
